@@ -150,7 +150,7 @@ CLAIMS['C08'] = dict(category='proof', ref='5 Core E, 8 C08', text=_BROKER_TEXT 
     "C08_refines_reference: after any admitted history the retained trie is the reference broker's store and the deliveries after a SUBACK are exactly (as a multiset, DUP/id free) the messages it demands, RETAIN=1.") + _REFINE + _PARTIAL_SCHED +
     " Byte identity of payloads across ring reuse and retained updates concurrent to subscriptions are memory/race facts outside the pure model (correspondence / C18).")
 CLAIMS['C09'] = dict(category='proof', ref='5 Core E, 8 C09', text=_BROKER_TEXT % (
-    "Theorems (23; the last one, C09_unanswerable_connect_no_will: a CONNECT whose answer cannot be written yields the ends of the connections it takes over and its own close - its will is never published, no connection and no subscription exists for it): DISCONNECT emits only the close, nothing is published, later events for the connection are silent (C09_disconnect_no_will, "
+    "Theorems (25 + source ties; SERVER CLOSE is part of the broker model and of every broker run since `srvclose` (Model/Broker.lean `srvClose` = stop() for every live connection in the order of registration; harness event `srvclose` = Server.Close on the real server, one episode in three ends with it): C09_stopAll_is_run, C09_server_close_publishes_wills - it is the run of the non-graceful ends of all live connections, along which the refinement holds, so every will is published (to the in-process subscribers observably; what reaches a connection that is closed on the same line is not observed) -, C09_server_close_is_source ties the loop order of Server.Close (fact takeoverCloseSeq); C09_unanswerable_connect_no_will: a CONNECT whose answer cannot be written yields the ends of the connections it takes over and its own close - its will is never published, no connection and no subscription exists for it): DISCONNECT emits only the close, nothing is published, later events for the connection are silent (C09_disconnect_no_will, "
     "C09_disconnect_after_history); an abnormal end emits the close followed by exactly the fan-out of the will, once (C09_will_published_once, "
     "C09_no_will_no_publish, C09_stopBase); after an accepted CONNECT, fresh or resumed, the session's will is THIS CONNECT's (topic, payload, QoS, "
     "retain) (C09_will_is_current_connect, C09_initWill_fields, C09_current_will_published, C09_will_of_own_connect over quiet histories); no other event "
